@@ -295,7 +295,8 @@ def ops_for_kind(kind, seg, rng):
     operation kind `kind` (paired so that each of them takes effect)."""
     locks = [st["l"] for st in seg["steps"]]
     ca = next((l.split("/")[1] for l in locks
-               if l.startswith("cas/") and l.split("/")[1] in ("A", "B", "C")),
+               if l.startswith("cas/")
+               and l.split("/")[1] in ("A", "B", "C", "Z")),
               "A")
     if kind in TASK_TRIGGERS:
         return [dict(TASK_TRIGGERS[kind])]
@@ -305,6 +306,10 @@ def ops_for_kind(kind, seg, rng):
         r = rng.choice([1, 2, 3])
         return [{"k": "roa_add", "ca": ca, "r": r},
                 {"k": "roa_del", "ca": ca, "r": r}]
+    if kind in ("ca_show", "history", "status") and ca == "Z":
+        # (the CA that comes and goes in the other thread: reads and
+        # commands while it is there)
+        return [{"k": "ca_show", "ca": "Z"}, {"k": "ca_id", "ca": "Z"}]
     if kind in ("ca_show", "history", "status"):
         return [{"k": kind, "ca": ca}]
     if kind in ("roll_init", "roll_activate"):
